@@ -214,8 +214,11 @@ def run_check(H, pid, tier, seed, nproc, write_evidence=True, only=None):
                    'replay_cmd': f'./vcheck {pid} --replay {path}'}, open(path, 'w'), indent=1, default=str)
         lines.append(f'VIOLATION property={pid} replay={path}')
         lines.append(f'  what: {v["what"]}')
-    for s in inconclusive[:40]:
-        lines.append(f'INCONCLUSIVE property={pid} reason={s}')
+    agg = {}
+    for s in inconclusive:
+        agg[s] = agg.get(s, 0) + 1
+    for s, k in list(agg.items())[:40]:
+        lines.append(f'INCONCLUSIVE property={pid} reason={s}' + (f' (x{k})' if k > 1 else ''))
     for s in harness_errors[:20]:
         lines.append(f'HARNESS-ERROR property={pid} {s}')
     wall = round(time.time() - t0, 2)
